@@ -105,8 +105,8 @@ func runVariant(ctx *report.Ctx, rf rules.RuleFunc, repo string, v load.Variant,
 	if v.Tags == "run" {
 		want = 13
 	}
-	if len(pkgs) != want {
-		ctx.Undecided("load", v.Name, "", fmt.Sprintf("expected %d packages in this variant, loaded %d: %v", want, len(pkgs), pkgs))
+	if len(pkgs) < want {
+		ctx.Undecided("load", v.Name, "", fmt.Sprintf("expected at least %d packages in this variant, loaded %d: %v", want, len(pkgs), pkgs))
 	}
 	*analysed = append(*analysed, map[string]interface{}{"variant": v.Name, "packages": pkgs, "functions": nf})
 }
